@@ -293,3 +293,33 @@ Print Assumptions C08_gen_tzrange_init.
 Theorem C08_gen_tzstr_init : forall s po, gen_tzstr_init s po = tzstr_init s po.
 Proof. exact gen_tzstr_init_eq. Qed.
 Print Assumptions C08_gen_tzstr_init.
+
+(* _tzparser.parse, the slices regenerated from source (option monad: an IndexError / ValueError /
+   AssertionError inside parse() makes it return None).  The offset after an abbreviation
+   (sign, then hhmm / hh:mm / hh): *)
+Theorem C08_gen_parse_read_offset : forall l i, gen_read_offset l i = read_offset l i.
+Proof. exact gen_read_offset_eq. Qed.
+Print Assumptions C08_gen_parse_read_offset.
+
+(* the time of a rule after '/' (hhmm / hh:mm[:ss] / hh) *)
+Theorem C08_gen_parse_rule_time : forall l i,
+  gen_read_rule_time l i =
+  obind (read_hhmm true l (S i)) (fun '(v, i2, u2) => Some (v, i2, [i] ++ u2)).
+Proof. exact gen_read_rule_time_eq. Qed.
+Print Assumptions C08_gen_parse_rule_time.
+
+(* one pass of `for x in (res.start, res.end)` over a POSIX rule (Jn | Mm.w.d | n) [/time] *)
+Theorem C08_gen_parse_posix_rule : forall l i, gen_posix_rule l i = posix_rule l i.
+Proof. exact gen_posix_rule_eq. Qed.
+Print Assumptions C08_gen_parse_posix_rule.
+
+(* one pass of `for x in (res.start, res.end)` of the deprecated format month,[-]week,day,seconds *)
+Theorem C08_gen_parse_dep_rule : forall l i, gen_dep_rule l i = dep_rule l i.
+Proof. exact gen_dep_rule_eq. Qed.
+Print Assumptions C08_gen_parse_dep_rule.
+
+(* the abbreviation span `while j < len_l and not [x for x in l[j] if x in "0123456789:,-+"]: j += 1`
+   (the character class is read from the source) *)
+Theorem C08_gen_parse_span_name : forall suffix j, gen_span_name suffix j = span_name suffix j.
+Proof. exact gen_span_name_eq. Qed.
+Print Assumptions C08_gen_parse_span_name.
